@@ -117,6 +117,8 @@ std::vector<Item> dump_state(const Schedule& sched, std::size_t step, const Summ
         d.n(p + "econ.min_oil", econ.minOilRate(), true); d.n(p + "econ.min_gas", econ.minGasRate(), true);
         d.n(p + "econ.max_wct", econ.maxWaterCut(), true); d.n(p + "econ.max_gor", econ.maxGasOilRatio(), true);
         d.i(p + "econ.end_run", econ.endRun());
+        d.n(p + "econ.max_wgr", econ.maxWaterGasRatio(), true); d.n(p + "econ.max_wct_2", econ.maxSecondaryMaxWaterCut(), true); d.n(p + "econ.min_liq", econ.minLiquidRate(), true);
+        d.i(p + "econ.workover", static_cast<int>(econ.workover())); d.i(p + "econ.workover_2", static_cast<int>(econ.workoverSecondary())); d.i(p + "econ.quantity", static_cast<int>(econ.quantityLimit()));
         }
     }
     // ---- groups
